@@ -312,8 +312,12 @@ func init() {
 				mu.Lock()
 				armed = false
 				mu.Unlock()
+				spilled := op.Op == "C" && spilledPastHead(op.Dir, run.hs.VerifHead(cf.Bucket))
 				op.Dir = nil
 				c.Ops = append(c.Ops, op)
+				if spilled { // known finding F24 (see l2.go): any further write would end this process
+					break
+				}
 			}
 			if mode == "normal" { // the clean shutdown itself is part of normal operation
 				mu.Lock()
